@@ -310,6 +310,11 @@ package node
 //@   call processFastForwardRequest assert[gate-ff]    __lastret("GetState", 0) == _state.Babbling
 //@   call processJoinRequest        assert[gate-join]  __lastret("GetState", 0) == _state.Babbling
 //@   call processSyncRequest        assert[gate-sync]  __lastret("GetState", 0) == _state.Babbling || __lastret("GetState", 0) == _state.Suspended
+// the other direction ("a suspended node still answers sync requests"; a babbling node serves every request type)
+//@   ensures[sync-served]  (__lastret("GetState", 0) == _state.Babbling || __lastret("GetState", 0) == _state.Suspended) && __dyn(rpc.Command, "SyncRequest") ==> __called("processSyncRequest")
+//@   ensures[eager-served] __lastret("GetState", 0) == _state.Babbling && __dyn(rpc.Command, "EagerSyncRequest") ==> __called("processEagerSyncRequest")
+//@   ensures[ff-served]    __lastret("GetState", 0) == _state.Babbling && __dyn(rpc.Command, "FastForwardRequest") ==> __called("processFastForwardRequest")
+//@   ensures[join-served]  __lastret("GetState", 0) == _state.Babbling && __dyn(rpc.Command, "JoinRequest") ==> __called("processJoinRequest")
 
 // The node's own periodic work keeps the standing invariants as well: a gossip round (pull, then push) and a
 // monologue (a self-event when there is something to record).
